@@ -333,6 +333,60 @@ def _judge_records(ctx, work, spec, recs, by_id):
     return verdicts
 
 
+def _apalache_budget(ctx, work):
+    """spec/BudgetInd.tla: the intended budget rule as an inductive invariant over unbounded integers (every nrow, every
+    sequence of row heights and heading counts), discharged by Apalache: Init => IndInv and IndInv /\\ Next => IndInv'.
+    As a non-vacuity control the stronger, false invariant 'fill <= avail' must be refuted."""
+    import os
+    import shutil
+    import subprocess
+    import time
+    exe = shutil.which("apalache-mc")
+    if not exe:
+        ctx.extra["apalache_inductive_budget"] = "apalache-mc not found: skipped"
+        return
+    spec_dir = os.path.join(os.path.dirname(os.path.dirname(os.path.abspath(__file__))), "spec")
+    out = work.path("apalache")
+    runs = [("Init => IndInv", ["--init=Init", "--inv=IndInv", "--length=0"], True),
+            ("IndInv /\\ Next => IndInv'", ["--init=IndInit", "--inv=IndInv", "--length=1"], True),
+            ("control: IndInv /\\ Next => (fill <= avail)' must fail", ["--init=IndInit", "--inv=NoException", "--length=1"], False)]
+    res = []
+    for name, args, want_ok in runs:
+        t0 = time.time()
+        p = subprocess.run([exe, "check"] + args + ["--out-dir=" + out, "BudgetInd.tla"], cwd=spec_dir, stdout=subprocess.PIPE, stderr=subprocess.STDOUT,
+                           text=True, timeout=600)
+        ok = "EXITCODE: OK" in p.stdout
+        err = "EXITCODE: ERROR (12)" in p.stdout       # invariant violation
+        if not ok and not err:
+            raise MachineryError("apalache-mc failed on BudgetInd (%s):\n%s" % (name, p.stdout[-1500:]))
+        if ok != want_ok:
+            raise MachineryError("BudgetInd: %s - expected %s, got %s" % (name, "proved" if want_ok else "refuted", "proved" if ok else "refuted"))
+        res.append({"obligation": name, "outcome": "no error" if ok else "counterexample (as expected)", "wall_s": round(time.time() - t0, 1)})
+    ctx.extra["apalache_inductive_budget"] = res
+
+
+FB_INV = ["TypeOK", "Tiling", "Budget", "NoMix", "OnlyWhenRequired"]
+
+
+def _findbreaks_family(ctx, work, tier):
+    """spec/FindBreaks.tla: the public r2rtf-compatible splitter PageBreakCalculator.find_page_breaks.  Its design
+    properties (tiling, budget, no mixed groups, breaks only when required) are model-checked; every behaviour is then
+    replayed on the real method (spec -> code).  The documents of C04 are paginated by the strategies, not by this
+    method, so a difference here is model drift, not a verdict."""
+    import findbreaks
+    consts = dict(NSet={0, 1, 4} if tier == "quick" else {0, 1, 2, 4, 5, 6}, Heights={1, 2, 3}, AvailSet={1, 2, 3, 5}, BoolSet={False, True})
+    res = family.model_check(ctx, work, "FindBreaks", consts, FB_INV, [], "find_page_breaks")
+    if res.violated:
+        raise MachineryError("FindBreaks model violates %s\n%s" % (res.violated, res.counterexample[:1200]))
+    got = family.generate(ctx, work, "FindBreaks", consts, "find_page_breaks")
+    items = [{"id": i, "sc": g["sc"], "pages": g["pages"], "additional": i % 3} for i, g in enumerate(got)]
+    recs = pmap(findbreaks.run_one, items, chunk=128)
+    bad = [r for r in recs if r["diff"]]
+    for r in bad[:20]:
+        ctx.model_drift("find_page_breaks %s: %s" % (json.dumps(r["sc"], sort_keys=True), r["diff"]))
+    ctx.extra["find_page_breaks_family"] = {"behaviours_replayed": len(recs), "drift": len(bad), "laws_model_checked": FB_INV[1:]}
+
+
 def run(pid, tier, seed, replay=None):
     spec = PROPS[pid]
     ctx = Ctx(pid, tier, seed)
@@ -388,6 +442,10 @@ def run(pid, tier, seed, replay=None):
                 ctx.model_drift("scenario %d: first difference at event %d: predicted %s, observed %s; cfg=%s"
                                 % (r["id"], r["drift"]["at"], r["drift"]["pred"], r["drift"]["obs"], json.dumps(sc["c"], sort_keys=True)))
         ctx.extra["conformance"] = {"compared_with_model_prediction": npred, "drift": ndrift}
+        if pid == "C04":
+            _findbreaks_family(ctx, work, tier)
+        if pid == "C03":
+            _apalache_budget(ctx, work)
         if pid in MULTI_JUDGE:
             # multi-section documents: the clauses of this property that the statement extends to them
             import multisec
